@@ -3,7 +3,7 @@ ID = "C06"
 PROPS = "Props/C06.v"
 GEN = ["tlssuites"]
 LEGS = [{"driver": "c06", "runner": ("agree", "Extract/ExtractAgree.v", "Agree_model"), "tags": "verif", "timeout": 2400}]
-COQ_TIMEOUT = 1500
+COQ_TIMEOUT = 5400
 
 TECHNIQUE = ("Coq: client and server endpoint models (abstract message alphabet, symbolic terms) run against each other over a faithful "
              "channel and swept by vm_compute over the whole finite configuration product (221 760 configurations) against a policy "
